@@ -72,6 +72,7 @@ type Prog struct {
 	mu         sync.Mutex
 	gen        sync.Mutex
 	schemaMiss map[string]bool
+	funcIDs    map[*ssa.Function]int
 }
 
 func funcKey(fn *ssa.Function) string {
@@ -126,7 +127,7 @@ func LoadProg(repo string, tags string) (*Prog, error) {
 		prog: prog, pkgs: map[string]*ssa.Package{}, ppkgs: map[string]*packages.Package{},
 		funcs: map[string]*ssa.Function{}, fnFile: map[string]string{}, repo: repo, tags: tags,
 		typeTags: map[string]int{}, globalIDs: map[*ssa.Global]int{}, rtypeOf: map[*ssa.Global]types.Type{},
-		rtypeIDs: map[string]int{}, rtypeNames: map[int]string{}, loops: map[*ssa.Function][]*Loop{}, schemaMiss: map[string]bool{},
+		rtypeIDs: map[string]int{}, rtypeNames: map[int]string{}, loops: map[*ssa.Function][]*Loop{}, schemaMiss: map[string]bool{}, funcIDs: map[*ssa.Function]int{},
 	}
 	P.fset = prog.Fset
 	for i, sp := range spkgs {
